@@ -360,10 +360,16 @@ def check_locking(model, rep, m, R='C20.locking'):
         for c in ('initial-flag', 'scan-coverage', 'scan'):
             rep.note(R, f'Powertrain.__init__:{c}', 'scan form outside the symbolic rule; decided on concrete chains only', m.loc)
         return
-    ok_init = len(init) == 1 and isinstance(init[0][3], Bv) and init[0][3].b is False
-    rep.decide(ok_init, R, 'Powertrain.__init__:initial-flag', 'the self-locking flag does not start as False', loc=m.loc)
     loops = [e[1] for e in effs if e[0] == 'loop' and any(
         x[0] == 'store' and x[2] == ffield for p in e[1].paths for x in p.effects)]
+    if not loops:
+        # the flag is not set by a scan loop at all (a search with next(...), a position tested against None, ...): the all-n form is not
+        # decided by this rule; chains of 2..5 (2..7 thorough) elements incl. never-mated worm gears are decided by the flag-value rule
+        for c in ('initial-flag', 'scan-coverage', 'scan'):
+            rep.note(R, f'Powertrain.__init__:{c}', 'scan form outside the symbolic rule; decided on concrete chains only', m.loc)
+        return
+    ok_init = len(init) == 1 and isinstance(init[0][3], Bv) and init[0][3].b is False
+    rep.decide(ok_init, R, 'Powertrain.__init__:initial-flag', 'the self-locking flag does not start as False', loc=m.loc)
     if len(loops) != 1:
         rep.violation(R, 'Powertrain.__init__:scan', f'{len(loops)} loops set the self-locking flag (one scan over all elements specified)', m.loc)
         return
